@@ -237,3 +237,6 @@ func verifNativeRun(t *testing.T, job int, inputsPath string, h func()) {
 }
 
 func verifConcretizeU16(x uint16) uint16 { return x }
+
+// verifConcretizeBool forks on a symbolic condition (an ordinary branch).
+func verifConcretizeBool(b bool) bool { return b }
